@@ -204,8 +204,18 @@ pub fn gen(ctx: &mut Ctx) {
                 let l = match ctx.rng.below(4) { 0 => ctx.rng.range(0, 57) as usize, 1 => ctx.rng.range(58, 300) as usize, 2 => ctx.rng.range(300, 1500) as usize, _ => rand_len(ctx).min(7608) };
                 let cmd = *ctx.rng.pick(&CMDS);
                 let d = ctx.rng.bytes(l);
-                s.extend(packets(*c, cmd, &d));
+                let ps = packets(*c, cmd, &d);
+                let conts = ps.len() - 1;
+                s.extend(ps);
                 expects.push((*c, cmd, d));
+                // strays after a delivered message: continuations carrying the sequence number that would have come next
+                // (and the ones after it), full-size — nothing is in progress on the channel, so nothing may come of them
+                if ctx.rng.below(3) == 0 && conts < 120 {
+                    for k in 0..ctx.rng.range(1, 6) as usize {
+                        let mut p = c.to_vec(); p.push((conts + k) as u8); p.extend(ctx.rng.bytes(59)); s.push(p);
+                    }
+                    ctx.stat("recv.strays_after_delivery");
+                }
             }
             streams.push(s);
         }
